@@ -575,6 +575,7 @@ def run(ck):
         "C12: float -> int64: which doubles make the conversion undefined (NaN, infinities, |f| >= 2^63) and the value this platform produces are computed by the harness with the controller's own expressions (getRequiredNs, parseDuration); ReadConv.v models Loki query_range only at nanosecond granularity with exact arithmetic for the aligned window (_to/d*d+d can wrap in int64 within d of MaxInt64)",
         "C12: the live-tail LTS abstracts one tick's pipeline to its result (answer / error message / return) -- that pipeline is theorem tail_tick_pipeline_terminates -- and assumes time does not pass while a channel operation is ready (Go's select picks among the ready cases)",
         "C12: a Scan error in TempoService.Tags / Values / Search returns without rows.Close(): the result set is released by database/sql (Rows.awaitDone) when net/http cancels the request context -- modelled as the drainer of that cell",
+        "C12: StableSqlxDBWrapper: sync.RWMutex is modelled as a writer-preferring read/write lock (RLock waits while a writer is active or announced, Lock announces one writer at a time and waits for the readers; the reader hand-off inside Unlock is one of the model's schedules); that every unit of sqlxWrap.go performs well-bracketed sections (pl_ok) rests on locks_released_on_every_path over the generated flows plus the reading of QueryCtx (the closure returns before the write lock is asked for); the harness counts pool rebuilds in the GetDB callback it hands to the real wrapper and cancels the request context itself when a scripted statement stalls",
         "C12: goroutine census (runtime.Stack) and the child-process crash/hang detection of harness/cmd/readfuzz",
         "C12: go/ast translator translate/goinv_reader (recover status, operation census by name-based call following inside a package)",
     ]
